@@ -67,7 +67,8 @@ def pattern_scenarios(chains, rnd, count):
     for n, ch in enumerate(picked[:max(count, len(by) * 2)]):
         # shift 0 keeps the pattern's block 1 at height 1 (finding F8 lives there); other shifts avoid it
         shift = 0 if n % 3 == 0 else rnd.randrange(1, 4)
-        res.append({"id": "p%d" % n, "wc": 1, "wf": 2, "shift": shift, "epoch_len": rnd.choice([5, 7, 1000]),
+        has_uncle = any(b["uprops"] for b in ch["ch"])       # an uncle must lie in the epoch of the block embedding it
+        res.append({"id": "p%d" % n, "wc": 1, "wf": 2, "shift": shift, "epoch_len": 1000 if has_uncle else rnd.choice([5, 7, 1000]),
                     "epoch_reward": 1000003, "fees": fees_for(rnd, 2),
                     "blocks": [{"props": b["props"], "uprops": b["uprops"], "commits": [c["id"] for c in b["commits"]]}
                                for b in ch["ch"]], "tail": 4})
@@ -80,7 +81,7 @@ def random_scenario(rnd, n, wc, wf, ntx, length):
     shift = rnd.choice([0, 1, 2])
     for c in range(1, length + 1):
         props = [t for t in range(1, ntx + 1) if t not in committed and rnd.random() < 0.22]
-        up = [t for t in range(1, ntx + 1) if t not in committed and rnd.random() < 0.12] if shift + c >= 2 else []
+        up = [t for t in range(1, ntx + 1) if t not in committed and rnd.random() < 0.12] if shift + c >= 2 and n % 2 == 0 else []
         window = [p for p in range(1, c) if c - wf <= p <= c - wc]
         cand = [t for t in range(1, ntx + 1) if t not in committed and
                 any(t in blocks[p - 1]["props"] + blocks[p - 1]["uprops"] for p in window)]
@@ -88,7 +89,8 @@ def random_scenario(rnd, n, wc, wf, ntx, length):
         rnd.shuffle(commits)
         committed.update(commits)
         blocks.append({"props": props, "uprops": up, "commits": commits})
-    return {"id": "r%d" % n, "wc": wc, "wf": wf, "shift": shift, "epoch_len": rnd.choice([4, 7, 9]),
+    has_uncle = any(b["uprops"] for b in blocks)
+    return {"id": "r%d" % n, "wc": wc, "wf": wf, "shift": shift, "epoch_len": 1000 if has_uncle else rnd.choice([4, 7, 9]),
             "epoch_reward": rnd.choice([1000003, 999983, 77777]), "fees": fees_for(rnd, ntx), "blocks": blocks, "tail": wf + 2}
 
 
@@ -302,6 +304,8 @@ def run(tier):
     rands = [random_scenario(rnd, n, 2, 4, 4, 11) for n in range(6 if tier == "quick" else 40)]
     rands += [random_scenario(rnd, 100 + n, 1, 2, 3, 8) for n in range(4 if tier == "quick" else 30)]
     scenarios = pats + rands
+    with open(os.path.join(V.workdir(PID), "scenarios.ndjson"), "w") as f:
+        f.write("".join(json.dumps(s) + "\n" for s in scenarios))
     real = build_chains(scenarios)
     targets = judge_fees(c, scenarios, real)
     for s in scenarios:
